@@ -155,6 +155,18 @@ def shape_pointer_across_use(n):
     return units
 
 
+def shape_generic_across_use(n):
+    """Modules on a USE ring that all declare a generic interface of the same name (each with its own specific)."""
+    units = []
+    kinds = ["integer", "real", "logical", "complex", "character(len=1)", "double precision", "integer(8)", "real(8)"]
+    for i, j in _ring(n):
+        units.append((f"wm{i}", f"module wm{i}\n  use wm{j}\n  implicit none\n  interface wshow\n    module procedure wsp{i}\n  end interface wshow\n"
+                               f"contains\n  subroutine wsp{i}(a)\n    {kinds[i % len(kinds)]} :: a\n  end subroutine wsp{i}\nend module wm{i}\n"))
+    e = _entry(n)
+    units.append(("wprog", f"program wprog\n  use wm{e}\n  implicit none\n  call wshow(1)\n  call wsp{e}(1)\nend program wprog\n"))
+    return units
+
+
 def shape_generic(n):
     b = "module gm\n  implicit none\n"
     for i, j in _ring(n):
@@ -251,7 +263,7 @@ SHAPES = {
     "procptr": shape_procptr, "generic": shape_generic, "include": shape_include, "pp_include": shape_pp_include,
     "pp_macro": shape_pp_macro, "select_type": shape_select, "component": shape_component, "iface_arg": shape_iface_arg,
     "result_name": shape_result, "self_use": shape_self_use, "include_in_scope": shape_include_in_scope,
-    "pointer_across_use": shape_pointer_across_use,
+    "pointer_across_use": shape_pointer_across_use, "generic_across_use": shape_generic_across_use,
 }
 
 
@@ -280,7 +292,7 @@ def _lasso(fn, t):
 
 
 for _name in ("use", "extends", "extends_files", "submodule", "include", "pointer", "binding", "extends_files_rev", "include_rev",
-              "include_in_scope", "pointer_across_use"):
+              "include_in_scope", "pointer_across_use", "generic_across_use"):
     for _t in (1, 2):
         SHAPES[f"{_name}_lasso{_t}"] = _lasso(SHAPES[_name], _t)
 
